@@ -6,21 +6,25 @@ def unsafe_decode(string):
   return json.loads(string)
 
 def decode(string):
-  validate_all_printable(string)
-  return unsafe_decode(string)
-
-def validate_encoded(string):
   # both regex and JSON parse are necessary,
   # because string can be invalid JSON and
   # JSON can contain forbidden chars (non-printable)
   validate_all_printable(string)
   try:
-    json.loads(string)
+    obj = json.loads(string)
   except Exception as err:
-    raise Exception(
+    raise gfapy.FormatError(
     "{} is not a valid JSON string\n".format(repr(string))+
     "json.loads raised a {} exception\n".format(err.__class__.__name__)+
-    "error message: {}").format(str(err)) from err
+    "error message: {}".format(str(err))) from err
+  if not isinstance(obj, list) and not isinstance(obj, dict):
+    raise gfapy.FormatError(
+    "{} is not a valid JSON field\n".format(repr(string))+
+    "(the value must be a JSON array or object)")
+  return obj
+
+def validate_encoded(string):
+  decode(string)
 
 def validate_decoded(obj):
   if isinstance(obj, gfapy.FieldArray):
